@@ -25,15 +25,15 @@ def corpus_cases():
 def main():
     chk = common.Check('C19')
     import locale_common as C
-    proved = chk.prove('I18n.Props.C19', generated=('locale', 'ling'), extra_targets=())
-    problems = ' '.join(p for p in chk.lean.problems if 'translator(ling)' not in p)
+    proved = chk.prove('I18n.Props.C19', generated=('locale', 'linglang'), extra_targets=())
+    problems = ' '.join(p for p in chk.lean.problems if 'translator(linglang)' not in p)
     # the tie by translation: lib/ling.py (class Language, parse_language, the code look-ups) regenerated from the current source and proved
     # equal to the model the theorems above are about (Props/C19Tie.lean)
-    tie_ok = common.prove_tie(chk, 'I18n.Props.C19Tie', ('ling',),
+    tie_ok = common.prove_tie(chk, 'I18n.Props.C19Tie', ('linglang',),
                               'lib/ling.py regenerated from the current source (Generated/Ling.lean) is no longer proved equal to the model '
                               '(Locale.parseLanguageE, fixCodes, removeEncoding, removeNonlinguisticModifier, isAlmostEqual, Language.str: '
                               'generated_*_eq_model and the clause-1/clause-2 corollaries)')
-    driver_ok = os.path.exists(common.driver_path()) and not any('untranslatable' in s for k, s in chk.lean.translation.items() if k != 'ling') \
+    driver_ok = os.path.exists(common.driver_path()) and not any('untranslatable' in s for k, s in chk.lean.translation.items() if k != 'linglang') \
         and 'Driver' not in problems and 'I18n.Model' not in problems and 'I18n.Spec' not in problems and 'I18n.Generated' not in problems
     rng = chk.rng
     T = C.gen_tables()
@@ -175,7 +175,7 @@ def main():
              'non-trivial = distinct canonical outcome',
         trusted=['Lean 4.33 kernel', 'axioms: propext, Classical.choice, Quot.sound only',
                  'tools/translate/locale2lean.py (dumps lib.ling tables as loaded and converts the re._parser tree of _language_regexp to an Re term)',
-                 'tie by translation + proof: tools/translate/ling2lean.py (over tools/translate/pytr core + objfn) is trusted; the kit Model/LingPy.lean is shared by both '
+                 'tie by translation + proof: tools/translate/linglang2lean.py (over tools/translate/pytr core + objfn) is trusted; the kit Model/LingLangPy.lean is shared by both '
                  'sides of the equalities (the scanner standing for _language_regexp.match, str.upper on ASCII, the dumped tables); class Language, parse_language and the '
                  'code look-ups regenerated from the current lib/ling.py are PROVED equal to the model (Props/C19Tie.lean) and run against CPython in the *-generated streams',
                  'Spec.LocaleRe.Matches as the meaning of pattern.match for this look-around-free fragment',
